@@ -102,7 +102,7 @@ Fixpoint bytes_eqb (a b : list N) : bool :=
 (* hwloc_internal_memattrs_prepare, from the regenerated table *)
 Definition init_attrs : list imattr :=
   map (fun e => match e with (n, f, i) =>
-         Imattr n f (has i HWLOC_IMATTR_FLAG_CONVENIENCE) (has i HWLOC_IMATTR_FLAG_CACHE_VALID) [] end)
+         Imattr n f (has i MEMATTR_IFLAG_CONVENIENCE) (has i MEMATTR_IFLAG_CACHE_VALID) [] end)
       memattr_predefined.
 
 (* list access by N index, structurally on the list (ids and array sizes given
